@@ -225,6 +225,15 @@ struct SplineAdapter final : ISpline
         own.propagateGrad(m, gT, g);
         return fromG(g);
     }
+    Grads propagateAliasedTimes(const MatrixXd &gC, const VectorXd &gT) override
+    {
+        Mat m = toMat(gC);
+        G g;
+        g.times = gT;
+        own.propagateGrad(m, g.times, g);
+        return fromG(g);
+    }
+    VectorXd trajEvalHint(double t, int *hint, int k) const override { return fromVec(own.getTrajectory().evaluate(t, hint, k)); }
     MatrixXd partialCStale(bool sameShape) const override
     {
         Mat m = Mat::Constant(sameShape ? own.getNumSegments() * S::COEFF_NUM : own.getNumSegments() * S::COEFF_NUM + 3, DIM, -9.75);
